@@ -1,12 +1,12 @@
 import UtilModel.Core.Driver
 import UtilModel.Core.DriverH
 import UtilModel.CContainer.Model
-import UtilModel.CContainer.Monitors
+import UtilModel.CContainer.WModel
 /-! Development driver for this component only:
 `lake env lean --run UtilModel/CContainer/TestDriver.lean ccontainer < hist` -/
 open UtilModel
 
 def main (args : List String) : IO UInt32 :=
   driverMain [
-    mkEntryH "ccontainer" CContainer.model CContainer.Obs.parse [MonEntry.ofMonitor "C15" CContainer.monC15]
+    mkEntryH "ccontainer" CContainer.wmodel CContainer.WObs.parse [MonEntry.ofMonitor "C15" CContainer.monC15W]
   ] args
